@@ -275,3 +275,12 @@ Definition aliases_ok (t : tool) : bool :=
 (* every option name the help text documents is accepted by some option block *)
 Definition documented_ok (t : tool) : bool :=
   forallb (fun a => existsb (tok_eqb a) (flat_map b_aliases (t_blocks t))) (t_documented t).
+
+(* every parameter of a documented line is consumed: with n = the mandatory count or the full documented count,
+   each k in 1..n is read by some use whose guard holds at n *)
+Definition reads_at (b : block) (n : nat) : list nat :=
+  map u_k (filter (fun u => guard_holds (u_guard u) n) (b_uses b)).
+Definition covers (b : block) (n : nat) : bool :=
+  forallb (fun k => existsb (Nat.eqb k) (reads_at b n)) (seq 1 n).
+Definition params_used_ok (b : block) : bool := covers b (nmand b) && covers b (List.length (b_parms b)).
+Definition tool_params_used_ok (t : tool) : bool := forallb params_used_ok (t_blocks t).
